@@ -2,6 +2,9 @@ import PdfModel.Lemmas.Offsets
 import PdfModel.Lemmas.OffLex
 import PdfModel.Lemmas.OffsetsFuel
 import PdfModel.Lemmas.SuffixConcrete
+import PdfModel.Lemmas.ShiftXref
+import PdfModel.Lemmas.ShiftScan
+import PdfModel.Model.XrefStreamSection
 
 /-!
 # C17 — bytes before the header do not change what is read
@@ -345,6 +348,76 @@ theorem prefix_changes_nothing_concrete (env : Env R) (pfuel : Nat) (dec : Dict 
   let h := prefix_changes_nothing (concreteP env pfuel dec X S) p f fuel s t tr hopen hno hl hfit
   ⟨h.1, h.2.1, h.2.2.1, h.2.2.2.1⟩
 
+/-! ### the cross-reference section reader and the scan loop, concrete
+
+`Model/XrefTable.lean` (C02 package) is the classic table reader and the dispatch `read_xref_and_trailer_at`;
+`Model/XrefStreamSection.lean` adds `parse_xref_stream_and_trailer`, so that the section reader has no parser
+parameter left (`XrefSec.sectionAt`, `XrefSec.loadTableC`); `Model/ScanLoop.lean` is the item loop of
+`Storage::scan` on the concrete lexer / parser. What remains a parameter: `f32::from_str`, the filter chain of a
+cross-reference stream (`dec`), the decryptor. -/
+
+open XrefTable in
+/-- **Shift lemma, classic table reader.** `parse_xref_table_and_trailer` on `p ++ b` from `p.size + k` reads the
+    subsections and the trailer dictionary it reads on `b` from `k`, and rests `p.size` further on — any
+    content. -/
+theorem xref_table_reader_prefix_shift (env : Env R) (p b : Buf) (hsz : (p ++ b).size ≤ 2147483647)
+    (hlen : LenBounded env) (fuel pfuel k : Nat) :
+    parseXrefTableAndTrailer env (p ++ b) fuel pfuel (p.size + k)
+      = omap (shT p.size) (parseXrefTableAndTrailer (env.shiftOffset p.size) b fuel pfuel k) :=
+  parseXrefTableAndTrailer_shift env p b hsz hlen fuel pfuel k
+
+open XrefTable in
+/-- **Shift lemma, section reader** (`read_xref_and_trailer_at`: `xref` → table, else `lexer.back()` and the stream
+    reader). The table branch is unconditional. The stream branch looks *backwards* from the first lexeme:
+    exactly when the prefix is empty or ends in white-space (`EndsWs`) the scan back stops where it stops
+    without the prefix. (That is why the code hands the reader `read(pos ..)`: a buffer that begins at the
+    section. `back_needs_boundary` below is the counter-example.) -/
+theorem xref_section_reader_prefix_shift (env : Env R) (stm stm' : Buf → Nat → Out (List Xref.Sub × Dict R)) (p b : Buf)
+    (hsz : (p ++ b).size ≤ 2147483647) (hlen : LenBounded env) (hp : EndsWs p)
+    (hstm : ∀ q, stm (p ++ b) (p.size + q) = stm' b q) (fuel pfuel k : Nat) :
+    readXrefAndTrailerAt env stm (p ++ b) fuel pfuel (p.size + k)
+      = readXrefAndTrailerAt (env.shiftOffset p.size) stm' b fuel pfuel k :=
+  readXrefAndTrailerAt_shift env stm stm' p b hsz hlen hp hstm fuel pfuel k
+
+/-- without the boundary `lexer.back()` runs into the prefix: `12` behind `x` is found as `x12` -/
+theorem back_needs_boundary :
+    back (#[120] ++ #[49, 50, 32]) (1 + 2) = .ok (0, 3) ∧ back #[49, 50, 32] 2 = .ok (0, 2) := by
+  decide +kernel
+
+/-- **`load_prefix_invariant`, concrete: no section-reader parameter.** The table and the trailer that
+    `read_xref_table_and_trailer` builds from `p ++ f` (header at `p.length + s`) are those it builds from `f`
+    (header at `s`) — classic tables, cross-reference streams, `/Prev` chains through both, any damage: every
+    section is read from the suffix of the file at `start + offset`, and those suffixes are the same. -/
+theorem load_prefix_invariant_concrete {V : Type} (env : Env R) (dec : Dict R → List UInt8 → Out (List UInt8))
+    (allowErr : Bool) (base : Parsers V (Dict R)) (p f : Bytes) (s k fuel : Nat) (hfit : Fits p f)
+    (hk : findLast startxrefKw (f.take (f.length - 1)) = some k) :
+    XrefSec.loadTableC env dec allowErr base fuel (p ++ f) (p.length + s)
+      = XrefSec.loadTableC env dec allowErr base fuel f s :=
+  loadTable_append _ p f s k fuel hfit hk
+
+/-- … composed with the header search: a file that opens, opens behind an admissible prefix with the same
+    table and trailer (`Model/XrefFile.lean`'s parsers plugged into `openFile`). -/
+theorem open_prefix_invariant_concrete {V : Type} (env : Env R) (dec : Dict R → List UInt8 → Out (List UInt8))
+    (allowErr : Bool) (base : Parsers V (Dict R)) (p f : Bytes) (fuel s : Nat) (t : Xref.Table) (tr : Dict R)
+    (hopen : openFile (XrefTable.fileParsers { env with fileOffset := 0 } (XrefSec.stmC env dec allowErr) base) fuel f
+      = .ok (s, t, tr))
+    (hno : ∀ j, j < p.length → ¬ headerMarker <+: (p ++ f).drop j)
+    (hl : p.length + s + 5 ≤ 1024) (hfit : Fits p f) :
+    openFile (XrefTable.fileParsers { env with fileOffset := 0 } (XrefSec.stmC env dec allowErr) base) fuel (p ++ f)
+      = .ok (p.length + s, t, tr) :=
+  open_prefix_invariant _ p f fuel s t tr hopen hno hl hfit
+
+/-- **`scan_prefix_invariant`, concrete: no item-loop parameter.** `Storage::scan` on the concrete lexer / parser
+    (`parse_indirect_object` until it fails, `xref … trailer` skipped into a trailer item, `startxref n` skipped):
+    the prefixed file yields the same items in the same order; the lexer's offset is the header position, so the
+    `file_range` of every stream among them is `p.length` further on — relative to the header, as the D26 repair
+    made it — and nothing else differs. -/
+theorem scan_prefix_invariant_concrete (env : Env R) (p f : Bytes) (s k : Nat) (hfit : Fits p f)
+    (hk : findLast startxrefKw (f.take (f.length - 1)) = some k) :
+    ScanLoop.scanC env (p ++ f) (p.length + s)
+      = omap (List.map (ScanLoop.shiftItem p.length)) (ScanLoop.scanC env f s) :=
+  ScanLoop.scanC_append env p f s k hfit hk
+
 end Concrete
 
 /-! ## What the code did before the repairs
@@ -467,5 +540,51 @@ example : isStreamAt 47 50 (readObjectAt cEnv 40 cFile 0 9 1023) = true := by de
 example : isStreamAt 68 71 (readObjectAt cEnv 40 (junk ++ cFile) 21 9 1023) = true := by decide +kernel
 example : locateXrefC cFile = .ok 9 ∧ locateXrefC (junk ++ cFile) = .ok 9 := by decide +kernel
 example : Fits junk cFile := by unfold Fits; decide
+
+/-! ### non-vacuity of the concrete section reader and scan loop
+
+`twoRev`: a two-revision file. Revision 1: objects 1 (a dictionary) and 2 (a stream, data at 62..65), a classic
+table at 83. Revision 2: object 3 (a string), a cross-reference *stream* (object 4, `/W [1 2 1] /Index [3 2] /Prev 83`)
+at 212. The concrete loader merges both sections through the `/Prev` chain, for the file and for the file behind
+`junk` (21 bytes); the concrete scan lists objects 1, 2, the trailer of the classic section and object 3, the
+stream's range at 62..65 resp. 83..86; the pre-repair scan loses object 3 behind the prefix. -/
+
+def twoRev : Bytes :=
+  [37, 80, 68, 70, 45, 49, 46, 52, 10, 49, 32, 48, 32, 111, 98, 106, 10, 60, 60, 47, 65, 32, 49, 62, 62, 10, 101, 110,
+   100, 111, 98, 106, 10, 50, 32, 48, 32, 111, 98, 106, 10, 60, 60, 47, 76, 101, 110, 103, 116, 104, 32, 51, 62, 62, 10, 115,
+   116, 114, 101, 97, 109, 10, 97, 98, 99, 10, 101, 110, 100, 115, 116, 114, 101, 97, 109, 10, 101, 110, 100, 111, 98, 106, 10, 120,
+   114, 101, 102, 10, 48, 32, 51, 10, 48, 48, 48, 48, 48, 48, 48, 48, 48, 48, 32, 54, 53, 53, 51, 53, 32, 102, 32, 10,
+   48, 48, 48, 48, 48, 48, 48, 48, 48, 57, 32, 48, 48, 48, 48, 48, 32, 110, 32, 10, 48, 48, 48, 48, 48, 48, 48, 48,
+   51, 51, 32, 48, 48, 48, 48, 48, 32, 110, 32, 10, 116, 114, 97, 105, 108, 101, 114, 10, 60, 60, 47, 83, 105, 122, 101, 32,
+   51, 62, 62, 10, 115, 116, 97, 114, 116, 120, 114, 101, 102, 10, 56, 51, 10, 37, 37, 69, 79, 70, 10, 51, 32, 48, 32, 111,
+   98, 106, 10, 40, 110, 101, 119, 41, 10, 101, 110, 100, 111, 98, 106, 10, 52, 32, 48, 32, 111, 98, 106, 10, 60, 60, 47, 84,
+   121, 112, 101, 47, 88, 82, 101, 102, 47, 83, 105, 122, 101, 32, 53, 47, 80, 114, 101, 118, 32, 56, 51, 47, 87, 91, 49, 32,
+   50, 32, 49, 93, 47, 73, 110, 100, 101, 120, 91, 51, 32, 50, 93, 47, 76, 101, 110, 103, 116, 104, 32, 56, 62, 62, 10, 115,
+   116, 114, 101, 97, 109, 10, 1, 0, 191, 0, 1, 0, 212, 0, 10, 101, 110, 100, 115, 116, 114, 101, 97, 109, 10, 101, 110, 100,
+   111, 98, 106, 10, 115, 116, 97, 114, 116, 120, 114, 101, 102, 10, 50, 49, 50, 10, 37, 37, 69, 79, 70, 10]
+
+def idDec : PdfLex.Dict Unit → List UInt8 → Out (List UInt8) := fun _ raw => .ok raw
+
+def baseP : Parsers (PdfLex.Prim Unit) (PdfLex.Dict Unit) := concreteP cEnv 200 idDec (fun _ => .err) (fun _ => [])
+
+def tableIs (t : Xref.Table) : Out (Xref.Table × PdfLex.Dict Unit) → Bool
+  | .ok (t', _) => decide (t' = t)
+  | _ => false
+
+def twoRevTable : Xref.Table :=
+  [.free 0 65535, .raw 9 0, .raw 33 0, .raw 191 0, .raw 212 0, .free 0 65535]
+
+example : tableIs twoRevTable (XrefSec.loadTableC cEnv idDec false baseP 10 twoRev 0) = true := by decide +kernel
+example : tableIs twoRevTable (XrefSec.loadTableC cEnv idDec false baseP 10 (junk ++ twoRev) 21) = true := by decide +kernel
+
+def scanIs (lo hi : Nat) : Out (List (ScanLoop.Item Unit)) → Bool
+  | .ok [.obj 1 0 (.dict _), .obj 2 0 (.stream _ (.inFile 2 0 a b)), .trailer _, .obj 3 0 (.str [110, 101, 119])] =>
+    a == lo && b == hi
+  | _ => false
+
+example : scanIs 62 65 (ScanLoop.scanC cEnv twoRev 0) = true := by decide +kernel
+example : scanIs 83 86 (ScanLoop.scanC cEnv (junk ++ twoRev) 21) = true := by decide +kernel
+example : scanIs 83 86 (ScanLoop.scanOldC cEnv (junk ++ twoRev) 21) = false := by decide +kernel
+example : findLast startxrefKw (twoRev.take (twoRev.length - 1)) = some 312 := by decide +kernel
 
 end Offsets
